@@ -6,7 +6,12 @@ D1(k, v) == DictV(<< <<s(k), v>> >>)
 D2(k, v, k2, v2) == DictV(<< <<s(k), v>>, <<s(k2), v2>> >>)
 
 ItemS == SchemaF(<< <<"p", With(IntF, [hasmin |-> TRUE, min |-> 1, hasmax |-> TRUE, max |-> 9, required |-> TRUE])>>,
-                    <<"q", With(StringF, [default |-> s(<<"q">>)])>> >>)
+                    <<"q", With(StringF, [default |-> s(<<"q">>)])>>,
+                    <<"m", With(DictF(StringF, IntF), [default |-> DictV(<<>>)])>> >>)
+CtS   == [ctype |-> TRUE] @@ SchemaF(<< <<"u", With(IntF, [default |-> IntV(0)])>>,
+                                        <<"m", With(DictF(StringF, IntF), [default |-> DictV(<<>>)])>> >>)
+ItemC == [ctype |-> TRUE] @@ SchemaF(<< <<"w", With(IntF, [hasmin |-> TRUE, min |-> 0, default |-> IntV(1)])>> >>)
+ItemDefault == DefaultCfg(Bind(ItemS, "none"), <<>>).cfg
 DeepS == SchemaF(<< <<"z", With(BoolF, [default |-> BoolV(FALSE)])>> >>)
 SubS  == [validators |-> <<"x_not_3">>] @@ SchemaF(<< <<"x", With(IntF, [default |-> IntV(1), required |-> TRUE])>>,
                     <<"y", With(StringF, [choices |-> << <<"u">>, <<"v">> >>])>>,
@@ -19,13 +24,17 @@ SchemaA == SchemaF(<<
     <<"l2", With(ListF(IntF), [default |-> ListV(<<IntV(-5)>>)])>>,
     <<"sub", SubS>>,
     <<"items", ListF(ItemS)>>,
-    <<"ditems", With(ListF(ItemS), [default |-> ListV(<<D1(<<"p">>, IntV(5))>>)])>> >>)
+    <<"ditems", With(ListF(ItemS), [default |-> ListV(<<D1(<<"p">>, IntV(5))>>)])>>,
+    <<"ct", CtS>>,
+    <<"citems", With(ListF(ItemC), [default |-> ListV(<<D1(<<"w">>, IntV(1)), D1(<<"w">>, IntV(1))>>)])>> >>)
 
-MCKeyNames == {"l2", "ditems", "a", "s", "l", "d", "sub", "x", "y", "deep", "z", "items", "p", "q", "zz"}
+MCKeyNames == {"ct", "citems", "u", "m", "w", "l2", "ditems", "a", "s", "l", "d", "sub", "x", "y", "deep", "z", "items", "p", "q", "zz"}
 MCKeyChars == [k \in MCKeyNames |->
     CASE k = "a" -> <<"a">> [] k = "s" -> <<"s">> [] k = "l" -> <<"l">> [] k = "d" -> <<"d">>
       [] k = "sub" -> <<"s","u","b">> [] k = "x" -> <<"x">> [] k = "y" -> <<"y">>
       [] k = "deep" -> <<"d","e","e","p">> [] k = "z" -> <<"z">> [] k = "items" -> <<"i","t","e","m","s">>
+      [] k = "ct" -> <<"c","t">> [] k = "citems" -> <<"c","i","t","e","m","s">> [] k = "u" -> <<"u">>
+      [] k = "m" -> <<"m">> [] k = "w" -> <<"w">>
       [] k = "l2" -> <<"l","2">> [] k = "ditems" -> <<"d","i","t","e","m","s">>
       [] k = "p" -> <<"p">> [] k = "q" -> <<"q">> [] k = "zz" -> <<"z","z">>]
 MCEnviron == [n \in {} |-> <<>>]
@@ -33,8 +42,11 @@ MCEnviron == [n \in {} |-> <<>>]
 SubDefault == DefaultCfg(Bind(SubS, "none"), <<"sub">>).cfg
 MCSetCands ==
     [pk \in {<< <<>>, "a">>, << <<>>, "s">>, << <<>>, "l">>, << <<>>, "d">>, << <<>>, "sub">>, << <<>>, "items">>,
-             << <<>>, "zz">>, << <<"sub">>, "x">>, << <<"sub">>, "y">>, << <<"sub">>, "deep">>, << <<"sub", "deep">>, "z">>} |->
-        CASE pk = << <<>>, "a">> -> {IntV(3), IntV(11), s(<<"7">>), NoneV, s(<<"x">>)}
+             << <<>>, "zz">>, << <<>>, "ct">>, << <<"ct">>, "u">>, << <<"ct">>, "m">>, << <<"sub">>, "x">>, << <<"sub">>, "y">>, << <<"sub">>, "deep">>, << <<"sub", "deep">>, "z">>} |->
+        CASE pk = << <<>>, "a">> -> {IntV(3), IntV(11), s(<<"7">>), NoneV, s(<<"x">>), FSpec("inf")}
+          [] pk = << <<>>, "ct">> -> {D1(<<"u">>, IntV(4)), D1(<<"u">>, s(<<"b">>)), D1(<<"m">>, D1(<<"k">>, s(<<"x">>)))}
+          [] pk = << <<"ct">>, "u">> -> {IntV(2), s(<<"b">>)}
+          [] pk = << <<"ct">>, "m">> -> {D1(<<"k">>, IntV(1)), D1(<<"k">>, s(<<"x">>))}
           [] pk = << <<>>, "s">> -> {s(<<" ", "A", "b", " ">>), s(<<"a", "b", "c", "d">>), IntV(1)}
           [] pk = << <<>>, "l">> -> {ListV(<<IntV(2), s(<<"3">>)>>), ListV(<<IntV(-1)>>), s(<<"x">>), ListV(<<>>)}
           [] pk = << <<>>, "d">> -> {D1(<<"k">>, IntV(1)), D1(<<"k">>, s(<<"x">>)), ListV(<<>>)}
@@ -42,6 +54,7 @@ MCSetCands ==
                                       D1(<<"x">>, NoneV), IntV(1), [t |-> "cfgobj", c |-> SubDefault],
                                       D2(<<"y">>, s(<<"u">>), <<"x">>, s(<<"b">>))}
           [] pk = << <<>>, "items">> -> {ListV(<<D1(<<"p">>, IntV(1))>>), ListV(<<D1(<<"p">>, IntV(0))>>),
+                                        ListV(<<D1(<<"p">>, IntV(2)), D2(<<"p">>, IntV(3), <<"m">>, D1(<<"k">>, s(<<"x">>)))>>),
                                         ListV(<<D1(<<"q">>, s(<<"r">>))>>), ListV(<<IntV(1)>>)}
           [] pk = << <<>>, "zz">> -> {IntV(1)}
           [] pk = << <<"sub">>, "x">> -> {IntV(2), IntV(3), NoneV, s(<<"q">>)}
@@ -53,12 +66,18 @@ MCTrees == {DictV(<<>>), D1(<<"a">>, IntV(1)), D2(<<"s">>, s(<<"X">>), <<"a">>, 
             D1(<<"i","t","e","m","s">>, ListV(<<D1(<<"p">>, IntV(2))>>)),
             D1(<<"i","t","e","m","s">>, ListV(<<D1(<<"p">>, IntV(2)), D1(<<"p">>, IntV(10))>>)),
             D2(<<"l">>, ListV(<<s(<<"4">>)>>), <<"z","z">>, IntV(1)),
-            D1(<<"d">>, D1(<<"k">>, IntV(2))), D1(<<"s","u","b">>, D1(<<"x">>, IntV(3)))}
+            D1(<<"d">>, D1(<<"k">>, IntV(2))), D1(<<"s","u","b">>, D1(<<"x">>, IntV(3))),
+            D1(<<"c","t">>, D1(<<"u">>, s(<<"b">>))), D1(<<"d">>, D1(<<"k">>, s(<<"x">>))),
+            D1(<<"c","i","t","e","m","s">>, ListV(<<D1(<<"w">>, IntV(1)), D1(<<"w">>, IntV(1)), D1(<<"w">>, IntV(-1))>>)),
+            D1(<<"s","u","b">>, IntV(5))}
 MCKwargs == {<<>>, << <<"a", IntV(7)>> >>, << <<"a", IntV(99)>> >>, << <<"sub", D1(<<"x">>, IntV(4))>> >>,
              << <<"s", s(<<"Q">>)>>, <<"a", s(<<"b">>)>> >>, << <<"zz", IntV(1)>> >>}
 MCListOps ==
-    [pk \in {<< <<>>, "l">>, << <<>>, "items">>, << <<>>, "ditems">>} |->
-        IF pk[2] = "l" THEN
+    [pk \in {<< <<>>, "l">>, << <<>>, "items">>, << <<>>, "ditems">>, << <<>>, "citems">>} |->
+        IF pk[2] = "citems" THEN
+            {[m |-> "item_set", i |-> 1, k |-> "w", v |-> IntV(-3)], [m |-> "item_set", i |-> 1, k |-> "w", v |-> IntV(3)],
+             [m |-> "extend", vs |-> <<D1(<<"w">>, IntV(2)), D1(<<"w">>, IntV(-2))>>]}
+        ELSE IF pk[2] = "l" THEN
             {[m |-> "append", v |-> IntV(4)], [m |-> "append", v |-> IntV(-1)], [m |-> "append", v |-> s(<<"5">>)],
              [m |-> "insert", i |-> 0, v |-> IntV(7)], [m |-> "insert", i |-> -1, v |-> s(<<"x">>)],
              [m |-> "setitem", i |-> 0, v |-> IntV(9)], [m |-> "setitem", i |-> 0, v |-> IntV(-9)],
@@ -70,6 +89,8 @@ MCListOps ==
         ELSE
             {[m |-> "append", v |-> D1(<<"p">>, IntV(3))], [m |-> "append", v |-> D1(<<"p">>, IntV(0))],
              [m |-> "append", v |-> DictV(<<>>)], [m |-> "append", v |-> IntV(1)],
+             [m |-> "append", v |-> [t |-> "cfgobj", c |-> ItemDefault]],
+             [m |-> "extend", vs |-> <<D1(<<"p">>, IntV(2)), D1(<<"p">>, IntV(0))>>],
              [m |-> "append", v |-> D1(<<"z","z">>, IntV(1))], [m |-> "setitem", i |-> 0, v |-> D1(<<"p">>, IntV(7))],
              [m |-> "setitem", i |-> 0, v |-> D1(<<"p">>, IntV(70))],
              [m |-> "item_set", i |-> 0, k |-> "p", v |-> IntV(8)], [m |-> "item_set", i |-> 0, k |-> "p", v |-> IntV(0)],
